@@ -330,6 +330,34 @@ def _recip_of(t, table):
             for r in rs[1:]:
                 out = out * r
             return out
+    # canonical form: a single Laurent monomial in variables with declared reciprocals
+    ctx = _CTX
+    if ctx is not None:
+        try:
+            nz = ctx.normalizer()
+            p = nz.canon(t)
+        except Exception:
+            return None
+        if len(p) == 1:
+            (mono, coef), = p.items()
+            if coef == 0:
+                return None
+            inv_of = {v.get_id(): k for k, v in table.items()}     # id(w) -> id(x)
+            out = z3.RealVal(str(1 / coef))
+            for aid, e in mono:
+                if aid in table:
+                    base_pos, base_neg = table[aid], nz.atoms.get(aid)
+                else:
+                    return None
+                if e > 0:
+                    for _ in range(e):
+                        out = out * base_pos
+                else:
+                    if base_neg is None:
+                        return None
+                    for _ in range(-e):
+                        out = out * base_neg
+            return out
     return None
 
 
